@@ -318,6 +318,21 @@ def run(ck, P):
         ck.ob("C07.5-AUTORELEASE", f.site("m_ctx_deregister()"), bool(ok),
               "automatic release at line %d in %s under %s" % (ev.line, f.name, fmt_facts(facts)))
     ck.need(len([e for e in sites if e.fn.name != "main"]) >= 2, "an automatic release site vanished")
+    # a context is not released under the feet of a caller that goes on using it: m_mod_register deregisters the module it replaces and
+    # then registers the successor in the same context, so that internal deregistration must not be able to trigger the automatic release
+    mdr = P.fn("mod_deregister", "Lib/core/mod.c")
+    mreg = P.fn("m_mod_register", "Lib/core/mod.c")
+    rel_sites = [e for e in sites if e.fn is mdr]
+    inner = [e for e in mreg.calls("mod_deregister")]
+    uses_after = bool(inner) and any(e.kind == "call" and e.callee == "m_map_put" and any(inner[0] in list(rules.path_events(mreg, p_)) and e in list(rules.path_events(mreg, p_))
+                                                                                      for p_ in mreg.paths()) for e in mreg.events())
+    fu = mdr.params[1]["name"] if len(mdr.params) > 1 else None
+    okrep = bool(rel_sites) and bool(inner) and fu is not None and all(has(X.facts(mdr, e, passed=True), fu) for e in rel_sites) \
+        and all(len(e.args) > 1 and cval(e.args[1]) == 0 for e in inner)
+    ck.ob("C07.5-AUTORELEASE", mreg.site("replace keeps the context"), okrep or not uses_after,
+          "the automatic release in mod_deregister is reserved to user deregistrations (%s); m_mod_register's internal one passes false" % fu if okrep else
+          "m_mod_register deregisters the module it replaces through a call that can release the (now empty, idle, non-persistent) context, then registers the "
+          "successor into that released context: the call reports success but the thread has no context any more")
 
     # ------------------------------------------------------------------ 6. finalize gate
     ck.rule("C07.6-FINALIZE", "R-GUARD: the insertion into c->modules in m_mod_register is dominated by !c->finalized (else a negative "
